@@ -82,6 +82,11 @@ public:
         for (Index k = 0; k < this->m_correction_size; k++)
         {
             Vector tmp = eigvals(k) - m_diagonal.array();
+            // A Ritz value can coincide with a diagonal entry (e.g. for an exactly decoupled
+            // coordinate, or when the Ritz vector is already exact), which would give 0/0 or x/0.
+            // Keep the denominators away from zero
+            const Scalar floor = Eigen::NumTraits<Scalar>::epsilon() * (std::max)(Scalar(1), std::abs(eigvals(k)));
+            tmp = (tmp.array().abs() < floor).select(floor, tmp);
             correction.col(k) = residues.col(k).array() / tmp.array();
         }
         return correction;
